@@ -264,6 +264,9 @@ impl DD {
         let (q1, q2) = quick_two_sum(q1, q2);
         DD::add_dd(&DD { hi: q1, lo: q2 }, &DD::from(q3))
     }
+    pub fn sqrt_dd_pub(a: &DD) -> DD {
+        DD::sqrt_dd(a)
+    }
     fn sqrt_dd(a: &DD) -> DD {
         if a.hi == 0.0 && a.lo == 0.0 {
             return DD::from(0.0);
@@ -397,6 +400,39 @@ impl DD {
         }
         y
     }
+    /// (sin x, cos x) in double-double arithmetic: x = k pi/2 + r with |r| <= pi/4, Taylor series for r
+    pub fn sincos_dd(x: &DD) -> (DD, DD) {
+        if !x.hi.is_finite() {
+            return (DD::from(f64::NAN), DD::from(f64::NAN));
+        }
+        // pi/2 to ~107 bits, plus a third part for the reduction
+        const PIO2_HI: f64 = 1.5707963267948966;
+        const PIO2_LO: f64 = 6.123233995736766e-17;
+        const PIO2_LO2: f64 = -1.4973849048591698e-33;
+        let k = (x.hi / PIO2_HI).round();
+        let kk = DD::from(k);
+        let mut r = DD::add_dd(x, &DD::neg_dd(&DD::mul_dd(&DD { hi: PIO2_HI, lo: PIO2_LO }, &kk)));
+        r = DD::add_dd(&r, &DD::from(-k * PIO2_LO2));
+        let r2 = DD::mul_dd(&r, &r);
+        // sin r = r - r^3/3! + ..., cos r = 1 - r^2/2! + ...
+        let mut sin = r;
+        let mut cos = DD::from(1.0);
+        let mut ts = r;
+        let mut tc = DD::from(1.0);
+        for n in 1..=16 {
+            let a = (2 * n) as f64;
+            tc = DD::neg_dd(&DD::div_dd(&DD::mul_dd(&tc, &r2), &DD::from(a * (a - 1.0))));
+            cos = DD::add_dd(&cos, &tc);
+            ts = DD::neg_dd(&DD::div_dd(&DD::mul_dd(&ts, &r2), &DD::from(a * (a + 1.0))));
+            sin = DD::add_dd(&sin, &ts);
+        }
+        match ((k as i64) % 4 + 4) % 4 {
+            0 => (sin, cos),
+            1 => (cos, DD::neg_dd(&sin)),
+            2 => (DD::neg_dd(&sin), DD::neg_dd(&cos)),
+            _ => (DD::neg_dd(&cos), sin),
+        }
+    }
     pub fn pow_dd(x: &DD, p: &DD) -> DD {
         if x.hi == 0.0 {
             return DD::from(if p.hi > 0.0 { 0.0 } else if p.hi == 0.0 { 1.0 } else { f64::INFINITY });
@@ -433,9 +469,15 @@ impl MomTropFloat for DD {
         dd_transcendental("exp", self, f64::exp)
     }
     fn cos(&self) -> Self {
+        if dd_accurate() {
+            return DD::sincos_dd(self).1;
+        }
         dd_transcendental("cos", self, f64::cos)
     }
     fn sin(&self) -> Self {
+        if dd_accurate() {
+            return DD::sincos_dd(self).0;
+        }
         dd_transcendental("sin", self, f64::sin)
     }
     fn powf(&self, p: &Self) -> Self {
